@@ -155,7 +155,7 @@ PROPS = {
                              thorough=[('scenario', ['-dir', '@ROOT/corpus/C04']), ('hist', ['-n', 20000, '-scans', 12]), ('hist', ['-n', 10000, '-scans', 12, '-focus', 'up']), ('awsops', ['-n', 100000]), ('fleetops', ['-n', 1600]), ('hist', ['-n', 200, '-scans', 8, '-focus', 'fleet']), ('hist', ['-n', 160, '-scans', 6, '-focus', 'up', '-slow']), ('hist', ['-n', 8000, '-scans', 12, '-focus', 'rotate'])],
                              search=[('hist', ['-n', 1500, '-scans', 12]), ('hist', ['-n', 1500, '-scans', 12, '-focus', 'up']), ('awsops', ['-n', 20000]), ('fleetops', ['-n', 300]), ('hist', ['-n', 40, '-scans', 8, '-focus', 'fleet']), ('hist', ['-n', 32, '-scans', 6, '-focus', 'up', '-slow']), ('hist', ['-n', 1500, '-scans', 12, '-focus', 'rotate'])]),
                 aspects=['hist:resize', 'cached-desired'], monitors=['C04'],
-                theorems=['Esc.P.C04_bound', 'Esc.P.C04_clamp_exact', 'Esc.P.C04_history', 'Esc.P.bounds_history', 'Esc.P.C04_history_configured', 'Esc.P.runOnce_fresh'],
+                theorems=['Esc.P.C04_bound', 'Esc.P.C04_clamp_exact', 'Esc.P.C04_history', 'Esc.P.bounds_history', 'Esc.P.C04_history_configured', 'Esc.P.runOnce_fresh', 'Esc.P.gen_clampedNodesToAdd_eq', 'Esc.P.C04_source_clamp', 'Esc.P.gen_decide_translation_complete'],
                 technique='Lean 4 theorem (walk of the journal with the running desired size; exact characterisation of IncreaseSize requests) + differential correspondence and runtime monitor',
                 level_text='bounds_history / C04_history_configured (EscProofs/P/Bounds.lean): along every history from NewController (distinct group names), the max_nodes a scan clamps against IS the configured one - no scan and no cloud answer moves it - or, under auto-discovery, the maximum of the cloud description the scan starts from, which runOnce_fresh shows to be an answer of that same scan. C04_bound / C04_history: every SetDesiredCapacity value and every fleet request, on top of the desired size at that moment, is <= min(max_nodes, cloud max), for all inputs and histories; '
                            'C04_clamp_exact: the clamp lands exactly on the bound and yields no request without headroom. Tie: hist correspondence on resize calls (arguments) + monitor; awsops/fleetops sequences on one provider (removals whose termination AWS rejects, then a request up to the maximum the provider reports) with the provider\'s cached desired size compared and every request checked against the cloud maximum counted from the real desired size.',
@@ -182,7 +182,7 @@ PROPS = {
                 aspects=['hist:taintadds', 'hist:untaints', 'hist:resize', 'hist:delta'], monitors=['C06'],
                 theorems=['Esc.P.C06_bands', 'Esc.P.C06_triggers', 'Esc.P.C06_triggers_off', 'Esc.P.C06_taint_rate', 'Esc.P.C06_idle_band',
                           'Esc.P.C06_up_never_taints', 'Esc.P.C06_down_never_adds', 'Esc.P.taintLoop_count_all_ok',
-                          'Esc.P.C06_starve_iff', 'Esc.P.C06_starve_scales_up', 'Esc.P.C06_float_bands', 'Esc.P.C06_rne64_bands', 'Esc.P.C06_decision_exact', 'Esc.P.C06_up_never_removes', 'Esc.P.C06_up_shape', 'Esc.P.C06_taint_walks_on', 'Esc.P.gen_calcPercentUsage_eq', 'Esc.P.gen_calcScaleUpDelta_vals'],
+                          'Esc.P.C06_starve_iff', 'Esc.P.C06_starve_scales_up', 'Esc.P.C06_float_bands', 'Esc.P.C06_rne64_bands', 'Esc.P.C06_decision_exact', 'Esc.P.C06_up_never_removes', 'Esc.P.C06_up_shape', 'Esc.P.C06_taint_walks_on', 'Esc.P.gen_calcPercentUsage_eq', 'Esc.P.gen_calcScaleUpDelta_vals', 'Esc.P.gen_bandSwitch_vals', 'Esc.P.gen_bandSwitch_sentinel', 'Esc.P.C06_source_bands', 'Esc.P.gen_decide_translation_complete'],
                 technique='Lean 4 theorem (band case analysis for any rounding function; exact taint count when no attempt fails; journal shape of the idle and scale-up branches) + differential correspondence at threshold neighbourhoods + exact-rational band oracle and documented-starve oracle as monitors',
                 level_text='C06_bands: the decision is -fast / -slow / 0 / scale-up formula according to where max(cpu%,mem%) (as computed) lies relative to the three thresholds (as converted), for every rounding function; C06_taint_rate: exactly min(rate, untainted - min) nodes are tainted when no attempt fails; '
                            'C06_idle_band: decision 0 yields only reaping; C06_up_never_taints; C06_triggers: starve / max-age only raise the decision to >= 1; C06_starve_iff: the starve trigger computed from the largest-pending / largest-available digests is exactly the documented condition (option on, some pending pod asks in CPU or memory for more than any untainted node has left, untainted < max_nodes), so C06_starve_scales_up: under that condition the decision is >= 1 in every band. C06_float_bands / C06_rne64_bands: for every rounding function obeying the standard model with u <= 2^-43 (binary64: 2^-53, proved for the executed rne64) the band decision is the one the EXACT utilisation max(100Rc/Cc, 100Rm/Cm) dictates whenever it is outside a relative neighbourhood of 2^-40 of a threshold; inside that neighbourhood either side is accepted (monitor likewise). '
